@@ -16,13 +16,15 @@ demodir=$(dirname "$wt/$demo")
 cp "$demofile" "$wt/$demo"
 for f in "$src"/*.bpmn; do [ -f "$f" ] && cp "$f" "$wt/testdata/"; done
 runname=$(grep -o 'func Test[A-Za-z0-9_]*' "$demofile" | head -1 | sed 's/func //')
+# demonstrations of data races need the race detector (meta.json's how_to_run says so)
+race=""; grep -q -- '-race' "$src/meta.json" 2>/dev/null && race="-race"
 # 1. demo passes without the change
-if (cd "$demodir" && go test -vet=off -count=1 -timeout 300s -run "$runname" . >"$wt/.d0" 2>&1); then res "demo passes on the unchanged tree"; else res "DEMO FAILS ON THE UNCHANGED TREE"; tail -5 "$wt/.d0"; exit 1; fi
+if (cd "$demodir" && go test $race -vet=off -count=1 -timeout 300s -run "$runname" . >"$wt/.d0" 2>&1); then res "demo passes on the unchanged tree"; else res "DEMO FAILS ON THE UNCHANGED TREE"; tail -5 "$wt/.d0"; exit 1; fi
 # 2. apply
 (cd "$wt" && git apply "$src/patch.diff") || { res "patch does not apply"; exit 1; }
 (cd "$wt" && go build ./... >"$wt/.b" 2>&1 && cd schema && go build ./... >>"$wt/.b" 2>&1) || { res "does not build"; exit 1; }
 res "builds with the change"
-if (cd "$demodir" && go test -vet=off -count=1 -timeout 300s -run "$runname" . >"$wt/.d1" 2>&1); then res "DEMO PASSES WITH THE CHANGE (not a demonstration)"; exit 1; else res "demo fails with the change: $(grep -m1 -E -- '--- FAIL|panic:|DATA RACE' "$wt/.d1")"; fi
+if (cd "$demodir" && go test $race -vet=off -count=1 -timeout 300s -run "$runname" . >"$wt/.d1" 2>&1); then res "DEMO PASSES WITH THE CHANGE (not a demonstration)"; exit 1; else res "demo fails with the change: $(grep -m1 -E -- '--- FAIL|panic:|DATA RACE' "$wt/.d1")"; fi
 rm -f "$wt/$demo"
 ok=0
 for try in 1 2 3; do
